@@ -1,4 +1,4 @@
-import PolyVerif.Lemmas.DigestCirc
+import PolyVerif.Lemmas.DigestLin
 /-
 Property C10 — Type IIS digestion follows enzyme geometry, independent of the stored origin.
 
@@ -120,6 +120,47 @@ theorem cut_linear_inside (s : Str) (directional : Bool) (e : Enzyme) (fr : List
   simp only [sequenceOf, Bool.false_eq_true, if_false] at this
   obtain ⟨a, b, hab⟩ := this
   exact ⟨a, b, hab.symm⟩
+
+/-- **cut_linear**: on every linear layout of the quantifier (`wfLinear`: the same conditions read
+without wrap-around), directional digestion succeeds and returns exactly the multiset of fragments of
+the linear spec: the stretches from the cut of a forward-pointing site to the next cut to its right
+when that one belongs to a backward-pointing site. -/
+theorem cut_linear (name : String) (g : Geometry) (s : Str) (h : wfLinear g s = true) :
+    ∃ fr, cutWithEnzyme s false true (enzymeOf name g) = .ok fr ∧ (fr.map tr).Perm (digestLin g s) := by
+  have hwf : WFL g (letter (upper s)) (upper s).length := wfl_of_wfLinearW h
+  obtain ⟨fr, h1, h2⟩ := cutCore_linear name g (upper s) hwf
+  refine ⟨fr, ?_, h2⟩
+  simp only [cutWithEnzyme, sequenceOf, Bool.false_eq_true, if_false]
+  rw [← upper_length s]
+  exact h1
+
+/-- **cut_linear_geometry**: every fragment returned for a linear part of the quantifier starts
+`|site| + skip` letters after a forward site at `p`, ends `skip` letters before a backward-pointing
+site at `q` that fits inside the part, both overhangs are the `oh` letters at its two ends, the
+stretch has `d ≥ 2·oh` letters and contains no other cut. -/
+theorem cut_linear_geometry (name : String) (g : Geometry) (s : Str) (h : wfLinear g s = true)
+    (fr : List Fragment) (hfr : cutWithEnzyme s false true (enzymeOf name g) = .ok fr) :
+    let w := letter (upper s)
+    let n := s.length
+    ∀ f ∈ fr, ∃ p ∈ linSites w n g.site, ∃ q ∈ linSites w n (rcSite g.site), ∃ d,
+      p + g.site.length + g.skip + d + g.skip = q ∧ q + g.site.length ≤ n ∧ 2 * g.oh ≤ d ∧
+      (∀ r ∈ linRevCuts g w n, ((p + g.site.length + g.skip : Nat) : Int) ≤ r → ((p + g.site.length + g.skip + d : Nat) : Int) ≤ r) ∧
+      (∀ c' ∈ linFwdCuts g w n, ((p + g.site.length + g.skip : Nat) : Int) < c' → ((p + g.site.length + g.skip + d : Nat) : Int) < c') ∧
+      f.fwd = window w (p + g.site.length + g.skip) g.oh ∧
+      f.rev = window w (p + g.site.length + g.skip + d - g.oh) g.oh ∧
+      f.fwd ++ f.seq ++ f.rev = window w (p + g.site.length + g.skip) d := by
+  intro w n f hf
+  obtain ⟨fr', h1, h2⟩ := cut_linear name g s h
+  rw [hfr] at h1
+  have hfr' : fr = fr' := by simpa using h1
+  subst hfr'
+  have hwf : WFL g (letter (upper s)) (upper s).length := wfl_of_wfLinearW h
+  have hmem : tr f ∈ digestLinW g (letter (upper s)) (upper s).length := by
+    have : tr f ∈ fr.map tr := List.mem_map.2 ⟨f, hf, rfl⟩
+    exact h2.mem_iff.1 this
+  have := digestLinW_geometry g hwf.paired hmem
+  rw [upper_length] at this
+  exact this
 
 /-! ### letter case -/
 
